@@ -108,13 +108,14 @@ func checkC06(c *Check) {
 }
 
 func checkC11(c *Check) {
-	c.Explain = "Decides on all 32 instantiations of the runtime template and peg.peg.go: R-parse-verdict (parse returns nil only on the true edge of the entry rule's result and otherwise &parseError{p, maxToken}; the entry index is rule[0] or 1), R-maxtoken (the error token is replaced only by a non-empty token that reaches strictly further, hence it is the first token reaching the furthest offset, built from add's own arguments and the current position), R-cursor (in translatePositions every advance of the cursor over the sorted offsets is dominated by the store of that offset's translation or by equality with the key just stored, and the function returns only after the sweep — so both the begin and the end offset of the error are translated), R-rune (Error() quotes the []rune buffer sliced by the token's begin/end; no string is ever indexed by an offset). NOT decided (value-level): the line/column arithmetic itself and bounds of the slice in Error()."
+	c.Explain = "Decides on all 32 instantiations of the runtime template and peg.peg.go: R-parse-verdict (parse returns nil only on the true edge of the entry rule's result and otherwise &parseError{p, maxToken}; the entry index is rule[0] or 1), R-maxtoken (the error token is replaced only by a non-empty token that reaches strictly further, hence it is the first token reaching the furthest offset, built from add's own arguments and the current position), R-cursor (in translatePositions every advance of the cursor over the sorted offsets is dominated by the store of that offset's translation or by equality with the key just stored, and the function returns only after the sweep — so both the begin and the end offset of the error are translated), R-rune (Error() quotes the []rune buffer sliced by the token's begin/end; no string is ever indexed by an offset). R-linecol-order (the line and column recorded for an offset are those of the character at that offset: computed from values defined before that iteration's newline test). NOT decided (value-level): the remaining line/column arithmetic (initial values, increments) and bounds of the slice in Error()."
 	c.Assume = []string{"position never exceeds the sentinel index (C13)", "positions passed to translatePositions are the begin/end of maxToken"}
 	c.Trusted = []string{"text/template/parse", "go/types, go/ssa (x/tools v0.50.0)", "the ==/!= union-find fact engine (pathfacts.go)"}
 	forEachRuntime(c, func(a *aggregator, v *rtView) {
 		rtParseVerdict(a, v)
 		rtMaxToken(a, v)
 		rtCursor(a, v)
+		rtLineCol(a, v)
 		rtRune(a, v)
 	})
 }
